@@ -423,8 +423,16 @@ pub fn string_consume<'b>(ctx: &mut Ctx, s: BString<'b>, t: String, a: u8) -> Sl
     match a % 3 {
         0 => {
             ctx.st(V::Conversions);
-            ctx.both("into_bump_str", move || s.into_bump_str().to_string(), move || t.leak().to_string());
-            Slot::Dead
+            // the frozen text stays in the machine as a leaked slice: it must read the same after every later step
+            let ls: &'b str = {
+                let _g = enter_arena(1);
+                s.into_bump_str()
+            };
+            let lt: &'static str = t.leak();
+            if ls.as_bytes() != lt.as_bytes() {
+                ctx.v("C14", format!("into_bump_str returned {:02x?}, the String held {:?}", ls.as_bytes(), lt));
+            }
+            Slot::LeakedB { s: ls.as_bytes(), t: lt.as_bytes(), from_string: true }
         }
         1 => {
             ctx.st(V::Conversions);
